@@ -201,7 +201,9 @@ def run_sched(case):
     _POINTS[fi] = pts
   pts = _POINTS[fi]
   if 'pick' in case:
-    rng = random.Random(case['pick'] * 1009 + fi)
+    import os
+    rng = random.Random('%s/%s/%s' % (case['pick'], fi,
+                                      os.environ.get('VERIF_SEED', '0')))
     idx = rng.randrange(len(pts))
   else:
     idx = case['idx']
